@@ -22,6 +22,7 @@ import (
 	"runtime"
 	"runtime/debug"
 	"sort"
+	"strings"
 
 	"github.com/ohler55/ojg/gen"
 	"github.com/ohler55/ojg/oj"
@@ -58,7 +59,52 @@ type interner struct {
 	vals []json.RawMessage
 }
 
+// kindEnc re-encodes tagged values {t: kind, ...} as {kind[/keys]: ...}: the kind becomes the FIELD NAME.  TLC compares
+// records field name by field name before it compares values, so two logged values of different kinds (a string where a
+// number was expected, an error where a tree was expected - whatever a defective implementation hands out) compare
+// unequal instead of raising a TLC evaluation error.  Records that carry the same field name always have the same shape.
+func kindEnc(v any) any {
+	switch t := v.(type) {
+	case map[string]any:
+		kind, tagged := t["t"].(string)
+		rest := map[string]any{}
+		keys := []string{}
+		for k, x := range t {
+			if tagged && k == "t" {
+				continue
+			}
+			rest[k] = kindEnc(x)
+			keys = append(keys, k)
+		}
+		if !tagged {
+			return rest
+		}
+		sort.Strings(keys)
+		switch {
+		case len(keys) == 0:
+			return map[string]any{kind: true}
+		case len(keys) == 1 && keys[0] == "v":
+			return map[string]any{kind: rest["v"]}
+		}
+		return map[string]any{kind + "/" + strings.Join(keys, "+"): rest}
+	case []any:
+		out := make([]any, len(t))
+		for i, x := range t {
+			out[i] = kindEnc(x)
+		}
+		return out
+	case []int64:
+		out := make([]any, len(t))
+		for i, x := range t {
+			out[i] = x
+		}
+		return out
+	}
+	return v
+}
+
 func (in *interner) id(v any) int {
+	v = kindEnc(v)
 	b, err := json.Marshal(v)
 	if err != nil {
 		panic(err)
